@@ -59,7 +59,7 @@ CLAIMED = {
         "and checks that the code's sequence of checks and writes never writes before a check that can still reject "
         "(NothingChanged, ChecksBeforeWrites); every scenario is executed on the real backward/mtl_backward and, if it "
         "raises, every .grad must be unchanged (value, object, memory); random programs with randomly injected faults are "
-        "recorded and validated by TLC (TraceRejection). The frozen leaf may carry a stale .grad (trained, then requires_grad_(False)): it is tracked too and must be left alone. One-element losses of shape (1,) / (1,1) are non-scalar; a call that carries an enumerated fault and is carried out all the same is a violation too (FaultyIsRejected)."),
+        "recorded and validated by TLC (TraceRejection). The frozen leaf may carry a stale .grad (trained, then requires_grad_(False)): it is tracked too and must be left alone. One-element losses of shape (1,) / (1,1) are non-scalar; a call that carries an enumerated fault and is carried out all the same is a violation too (FaultyIsRejected); aggregators one row short and Jacobians with a non-finite entry next to finite ones are among the faults."),
 }
 
 EXTRA = V / "tools" / "manifest_extra.json"      # entries contributed for the other properties
